@@ -1527,10 +1527,17 @@ func (a *app) run(cc net.Conn) string {
 	}
 	// close: client first; the server end must then see a clean EOF
 	atomic.StoreInt32(&a.closing, 1)
-	cc.Close()
+	// SnowflakeConn.Close blocks inside smux for as long as the session cannot write
+	// (a stalled stream); that is outside C01, the rig just must not wait for it.
+	closed := make(chan struct{})
+	go func() { cc.Close(); close(closed) }()
 	select {
-	case <-downDone:
-	case <-time.After(5 * time.Second):
+	case <-closed:
+		select {
+		case <-downDone:
+		case <-time.After(3 * time.Second):
+		}
+	case <-time.After(3 * time.Second):
 	}
 	srvEOF := "-"
 	select {
